@@ -29,8 +29,11 @@ RULES = {
     "R7": "a sharding reference is resolved to the innermost binding of its name (shared rule S2): every scan of the "
     "deserializer's scope stack - including the merged table used for ShardingSpec.tensor_name - lets the inner scope win, "
     "so a spec on a subgraph-local value that shadows an outer name stays bound to an input/output of its own node",
+    "R8": "serialized references use current names (shared rule S8): no memoised callable (lru_cache/cache/"
+    "cached_property) of the serializer, the device-annotation records or the core classes reads state that can change - a "
+    "value's name has a setter, so a cached proto or cached name keeps the name from the time of the first call",
 }
-FLOORS = {"R1": 12, "R2": 4, "R3": 4, "R4": 4, "R5": 4, "R6": 6, "R7": 2}
+FLOORS = {"R1": 12, "R2": 4, "R3": 4, "R4": 4, "R5": 4, "R6": 6, "R7": 2, "R8": 3}
 EXPLANATION = (
     "Structural checks on the record classes, on every writer of a node's input/output tuples, on the serializer's "
     "name derivation, the C06 write-before-reject analysis for the annotation API, and ordering (dominator) checks in "
@@ -350,3 +353,7 @@ def run(ctx):
                   "graph's value of the same name - the spec then targets a value that is not an input or output of its node",
                   how="stack order is outer→inner; form of the scan classified (direction × first-hit/last-write)", construct=form)
     ctx.require(n7 >= 2, "scope stack scans of the deserializer not found")
+    from ..shared import rule_s8
+
+    rule_s8(ctx, "R8", ("onnx_ir.serde", "onnx_ir._multi_device", "onnx_ir._core"),
+            "a sharding reference serialized after the value was renamed still carries the old tensor name, which is no input/output name of its node")
